@@ -118,7 +118,11 @@ def gen_robots(rng, site, agent_token):
     def maybe_comment():
         if comments and rng.random() < 0.5:
             lines.append(rng.choice(['# note\n', '   # indented note\n', '\t# tabbed note\n', '#\n', '  #Disallow: /\n',
-                                     '# r\xe9pertoire priv\xe9 (Latin-1 bytes, not UTF-8)\n', '# \xff\xfe\n']))
+                                     '# r\xe9pertoire priv\xe9 (Latin-1 bytes, not UTF-8)\n', '# \xff\xfe\n',
+                                     # bytes that are line boundaries for str.splitlines() but not in a robots.txt file (which
+                                     # knows CR and LF only): a Windows-1252 ellipsis, UTF-8 Cyrillic, VT, FF, FS/GS/RS
+                                     '# see below\x85\n', '# \xd1\x81\xd1\x82\xd1\x80\xd0\xb0\xd0\xbd\xd0\xb8\xd1\x86\xd0\xb0\xd1\x85\n',
+                                     '# a\x0bb\n', '# page\x0cbreak\n', '# \x1c\x1d\x1e\n', '#\x85\n']))
     for gi, (agent, rs) in enumerate(groups):
         maybe_comment()
         lines.append('User-agent: %s\n' % agent)
@@ -173,6 +177,17 @@ def build(case):
                 # several robots meta elements: any of them may carry the nofollow
                 p.extra_head = rr.choice(['<meta name="robots" content="max-image-preview:large">', '<meta name="robots" content="index">',
                                           '<meta name="ROBOTS" content="noarchive">']) + p.extra_head
+        # nofollow pages whose URL looks like a script to a detector that goes by the name (.jsp, .js.html, .json)
+        for k, path in enumerate(rr.sample(['/catalog.jsp', '/shop/list.jsp?id=1', '/app.js.html', '/data.json.html', '/v1.js/index.html',
+                                            '/d1/view.jsx', '/node.js'], 2)):
+            pg = site.add(sitegen.Page('http://' + site.host + path, 'html'))
+            pg.nofollow = True
+            pg.extra_head = '<meta name="robots" content="nofollow">'
+            for j in range(2):
+                trap = site.add(sitegen.Page('http://%s/only-via-nofollow-%d-%d.html' % (site.host, k, j), 'leaf'))
+                sitegen.add_link(rr, site, pg.url, trap.url, 'a', ['abs-path', 'absolute'])
+            sitegen.add_link(rr, site, site.start, pg.url, 'a', ['abs-path'])
+        for p in [x for x in site.pages.values() if x.nofollow]:
             if rr.random() < 0.5:
                 # a followable link that precedes the meta element in the document
                 p.extra_head = '<link rel="%s" href="/early-%d.html">' % (rr.choice(['next', 'canonical', 'prev']),
